@@ -131,28 +131,96 @@ theorem errors_not_isolated_without_clear_errors :
 
 /-! ## subscribe: refusals and the accepted case -/
 
-/-- **refusals** — a non-subscription operation, a runtime without stream support, a root
-    selection with several (or no) fields, an undefined field, a field without subscription
-    resolver are refused with the documented exception class, and in every refusal neither
-    the subscription resolver was called nor a single event pulled from a source. Everything
-    else is accepted. -/
+mutual
+/-- the response keys written anywhere in a root selection (through fragments), skipped ones dropped -/
+def flatKeysSel : RSel → List String
+  | .field none => []
+  | .field (some k) => [k]
+  | .spread ss => flatKeys ss
+def flatKeys : List RSel → List String
+  | [] => []
+  | s :: ss => flatKeysSel s ++ flatKeys ss
+end
+
+mutual
+private theorem collectSel_spec : ∀ (s : RSel) (acc : List String), acc.Nodup →
+    (collectSel s acc).Nodup ∧ ∀ k, k ∈ collectSel s acc ↔ k ∈ acc ∨ k ∈ flatKeysSel s
+  | .field none, acc, h => by simp [collectSel, flatKeysSel, h]
+  | .field (some k), acc, h => by
+    by_cases hk : k ∈ acc
+    · simp only [collectSel, hk, if_true, flatKeysSel, List.mem_singleton]
+      exact ⟨h, fun x => ⟨.inl, fun hx => hx.elim id (fun e => e ▸ hk)⟩⟩
+    · simp only [collectSel, hk, if_false, flatKeysSel]
+      refine ⟨?_, fun x => by simp [List.mem_append]⟩
+      rw [List.nodup_append]
+      refine ⟨h, by simp, ?_⟩
+      intro a ha b hb
+      simp at hb
+      subst hb
+      exact fun e => hk (e ▸ ha)
+  | .spread ss, acc, h => by simpa [collectSel, flatKeysSel] using collectSels_spec ss acc h
+private theorem collectSels_spec : ∀ (ss : List RSel) (acc : List String), acc.Nodup →
+    (collectSels ss acc).Nodup ∧ ∀ k, k ∈ collectSels ss acc ↔ k ∈ acc ∨ k ∈ flatKeys ss
+  | [], acc, h => by simp [collectSels, flatKeys, h]
+  | s :: ss, acc, h => by
+    have h1 := collectSel_spec s acc h
+    have h2 := collectSels_spec ss (collectSel s acc) h1.1
+    refine ⟨by simpa [collectSels] using h2.1, fun k => ?_⟩
+    simp only [collectSels, h2.2 k, h1.2 k, flatKeys, List.mem_append]
+    exact or_assoc
+end
+
+/-- **the single-root-field rule is about the COLLECTED fields, not about how they are written**:
+    the collected root keys are exactly the distinct response keys reachable through fragment
+    spreads and inline fragments (skipped fields dropped), each once. -/
+theorem collected_root_fields (root : List RSel) :
+    (collectSels root []).Nodup ∧ ∀ k, k ∈ collectSels root [] ↔ k ∈ flatKeys root := by
+  have := collectSels_spec root [] List.nodup_nil
+  exact ⟨this.1, fun k => by simpa using this.2 k⟩
+
+/-- two spellings of the root selection that reach the same set of response keys are treated
+    alike by the rule (same number of collected fields) -/
+theorem root_rule_spelling_independent (r1 r2 : List RSel) (h : ∀ k, k ∈ flatKeys r1 ↔ k ∈ flatKeys r2) :
+    (collectSels r1 []).length = (collectSels r2 []).length := by
+  have a := collected_root_fields r1
+  have b := collected_root_fields r2
+  exact ((List.perm_ext_iff_of_nodup a.1 b.1).2 (fun k => by rw [a.2, b.2, h])).length_eq
+
+/-- one top-level selection that EXPANDS to two root fields is two fields; one field written
+    twice (or through a fragment, or next to a skipped field) is one field -/
+example : (collectSels [.spread [.field (some "counter"), .field (some "doubled")]] []).length = 2 := by decide
+example : (collectSels [.spread [.field (some "a"), .spread [.field (some "b")]]] []).length = 2 := by decide
+example : (collectSels [.field (some "counter"), .field (some "counter")] []).length = 1 := by decide
+example : (collectSels [.spread [.field (some "counter")], .field none, .field (some "counter")] []).length = 1 := by decide
+
+/-- **refusals** — failures of operation selection and variable coercion, a non-subscription
+    operation, a runtime without stream support, a root selection that does not COLLECT to
+    exactly one field (however it is spelled), an undefined field, a field without subscription
+    resolver are refused with the exception class the code documents, in that order of
+    precedence, and in every refusal neither the subscription resolver was called nor a single
+    event pulled from a source. Everything else is accepted. -/
 theorem refusals (r : SubRequest) :
-    (r.operation ≠ .subscription ∨ r.streamRuntime = false →
+    (r.opselOk = false → subscribe r = .refused "InvalidOperationError" false 0)
+    ∧ (r.opselOk = true → r.varsOk = false → subscribe r = .refused "VariablesCoercionError" false 0)
+    ∧ (r.opselOk = true → r.varsOk = true → (r.operation ≠ .subscription ∨ r.streamRuntime = false) →
         subscribe r = .refused "RuntimeError" false 0)
-    ∧ (r.operation = .subscription → r.streamRuntime = true → r.rootFields ≠ 1 →
-        subscribe r = .refused "ExecutionError" false 0)
-    ∧ (r.operation = .subscription → r.streamRuntime = true → r.rootFields = 1 →
-        (r.fieldDefined = false ∨ r.hasSubResolver = false) → subscribe r = .refused "RuntimeError" false 0)
-    ∧ (r.operation = .subscription → r.streamRuntime = true → r.rootFields = 1 → r.fieldDefined = true →
-        r.hasSubResolver = true →
+    ∧ (r.opselOk = true → r.varsOk = true → r.operation = .subscription → r.streamRuntime = true →
+        (collectSels r.root []).length ≠ 1 → subscribe r = .refused "ExecutionError" false 0)
+    ∧ (r.opselOk = true → r.varsOk = true → r.operation = .subscription → r.streamRuntime = true →
+        (collectSels r.root []).length = 1 → (r.fieldDefined = false ∨ r.hasSubResolver = false) →
+        subscribe r = .refused "RuntimeError" false 0)
+    ∧ (r.opselOk = true → r.varsOk = true → r.operation = .subscription → r.streamRuntime = true →
+        (collectSels r.root []).length = 1 → r.fieldDefined = true → r.hasSubResolver = true →
         subscribe r = .stream (responses true ⟨[]⟩ 0 r.events) (r.events.length + 1)) := by
-  obtain ⟨op, n, fd, hs, rt, evs⟩ := r
-  refine ⟨?_, ?_, ?_, ?_⟩
-  · rintro (h | h) <;> simp_all [subscribe]
-  · intro h1 h2 h3; simp_all [subscribe]
-  · intro h1 h2 h3 h4
-    rcases h4 with h | h <;> simp_all [subscribe]
-  · intro h1 h2 h3 h4 h5
+  obtain ⟨oo, vo, op, root, fd, hs, rt, evs⟩ := r
+  refine ⟨?_, ?_, ?_, ?_, ?_, ?_⟩
+  · intro h; simp_all [subscribe]
+  · intro h1 h2; simp_all [subscribe]
+  · rintro h1 h2 (h | h) <;> simp_all [subscribe]
+  · intro h1 h2 h3 h4 h5; simp_all [subscribe]
+  · intro h1 h2 h3 h4 h5 h6
+    rcases h6 with h | h <;> simp_all [subscribe]
+  · intro h1 h2 h3 h4 h5 h6 h7
     have := collect_eq_responses true (evs.length + 1) ⟨evs, ⟨[]⟩, 0, 0⟩ (by simp)
     simp_all [subscribe]
 
@@ -163,24 +231,33 @@ theorem accepted_stream (r : SubRequest) (rs : List Result) (pulls : Nat) (h : s
     ∧ (∀ j, rs[j]? = r.events[j]?.map (freshExec j))
     ∧ (∀ (j : Nat) (res : Result), rs[j]? = some res → ∀ x ∈ res.errors, x.event = j) := by
   have R := refusals r
+  by_cases c0 : r.opselOk = true
+  case neg => rw [R.1 (by simpa using c0)] at h; cases h
+  by_cases c0' : r.varsOk = true
+  case neg => rw [R.2.1 c0 (by simpa using c0')] at h; cases h
   by_cases c1 : r.operation = .subscription
-  case neg => rw [R.1 (.inl c1)] at h; cases h
+  case neg => rw [R.2.2.1 c0 c0' (.inl c1)] at h; cases h
   by_cases c2 : r.streamRuntime = true
-  case neg => rw [R.1 (.inr (by simpa using c2))] at h; cases h
-  by_cases c3 : r.rootFields = 1
-  case neg => rw [R.2.1 c1 c2 c3] at h; cases h
+  case neg => rw [R.2.2.1 c0 c0' (.inr (by simpa using c2))] at h; cases h
+  by_cases c3 : (collectSels r.root []).length = 1
+  case neg => rw [R.2.2.2.1 c0 c0' c1 c2 c3] at h; cases h
   by_cases c4 : r.fieldDefined = true
-  case neg => rw [R.2.2.1 c1 c2 c3 (.inl (by simpa using c4))] at h; cases h
+  case neg => rw [R.2.2.2.2.1 c0 c0' c1 c2 c3 (.inl (by simpa using c4))] at h; cases h
   by_cases c5 : r.hasSubResolver = true
-  case neg => rw [R.2.2.1 c1 c2 c3 (.inr (by simpa using c5))] at h; cases h
-  rw [R.2.2.2 c1 c2 c3 c4 c5] at h
+  case neg => rw [R.2.2.2.2.1 c0 c0' c1 c2 c3 (.inr (by simpa using c5))] at h; cases h
+  rw [R.2.2.2.2.2 c0 c0' c1 c2 c3 c4 c5] at h
   injection h with h1 h2
   subst h1 h2
   refine ⟨one_result_per_event _ _ _ _, rfl, ?_, ?_⟩
   · intro j; simpa using kth_result_is_exec_of_kth_event ⟨[]⟩ 0 r.events j
   · intro j res hj; simpa using errors_isolated ⟨[]⟩ 0 r.events j res hj
 
-example : ∃ rs pulls, subscribe ⟨.subscription, 1, true, true, true, [evFail, evOk, evFail]⟩ = .stream rs pulls ∧ rs.length = 3 :=
+example : ∃ rs pulls, subscribe ⟨true, true, .subscription, [.field (some "root"), .spread [.field (some "root")]], true, true, true,
+    [evFail, evOk, evFail]⟩ = .stream rs pulls ∧ rs.length = 3 :=
   ⟨_, _, rfl, by decide⟩
+
+/-- the spelling the seeded change let through: one fragment spread that expands to two fields -/
+example : subscribe ⟨true, true, .subscription, [.spread [.field (some "counter"), .field (some "doubled")]], true, true, true, [evOk]⟩
+    = .refused "ExecutionError" false 0 := rfl
 
 end PyGql.Props.C17
